@@ -114,7 +114,7 @@ def h_gls(cx, models, xs, ylay, priors=None, method=None, key_order=None, correl
     # prior rows
     prows = []
     strp = {}
-    for pos in sorted(pri_specs):
+    for pos in pri_specs:      # insertion order of the priors argument = order of the prior columns the code hands to the solver / derived_observable
         ps = pri_specs[pos]
         if isinstance(ps, tuple):
             strp[pos] = ps
@@ -150,7 +150,7 @@ def h_gls(cx, models, xs, ylay, priors=None, method=None, key_order=None, correl
                 for (pos, ps, perr), k in zip(prows, range(len(prows))):
                     if pos == j:
                         tot = tot + (getP(pos) - getPr(k)) / (perr * perr)
-                cx.prove_eq(tot, 0, '%s: normal equation[%d]' % (label, j))
+                _neq(tot, Lr, label, j)
     def chi2_spec(p):
         resid = [(sum(A[i][l] * p[l] for l in range(n_parms)) - Y[i].value) for i in range(npts)]
         if L is None:
@@ -313,6 +313,10 @@ def jobs(tier, seed):
     S('const', [1.0, 2.0, 3.0], [E, Ei, F_], correlated=True)
     S('line', [1.0, 2.0, 3.0], [E, E, E], correlated=True, priors={'1': ('obs', F_)})
     S('line', [1.0, 2.0, 3.0], [E, E, E], correlated=True, method='migrad')
+    # dictionary priors inserted in descending parameter order (insertion order must not matter), with and without correlations
+    S('quad', [0.0, 1.0, 2.0, 3.0], [E, E, E, E], priors={'2': ('str', '0.10(5)'), '0': ('obs', F_)})
+    S('quad', [0.0, 1.0, 2.0, 3.0], [E, E, E, E], correlated=True, priors={'2': ('obs', F_), '0': ('str', '1.5(3)')})
+    S('line', [1.0, 2.0, 3.0], [E, E, E], correlated=True, priors={'1': ('obs', F_), '0': ('obs', Ei)}, key_order=1)
     # combined fits with shared parameters, all key orders
     for ko in range(2):
         add('gls', models={'a': 'lineA', 'b': 'lineB'}, xs={'a': [1.0, 2.0], 'b': [1.0, 3.0]}, ylay={'a': [E, E], 'b': [E, F_]}, key_order=ko)
